@@ -75,3 +75,125 @@ theorem mem_setDiscard (s : List α) (a b : α) : b ∈ setDiscard s a ↔ b ∈
   simp [setDiscard]
 
 end Desper
+
+namespace Desper.Dict
+variable {κ ν : Type} [DecidableEq κ]
+
+theorem mem_keys_of_mem_set {d : Dict κ ν} {k : κ} {v : ν} {x : κ} (h : x ∈ keys (set d k v)) :
+    x = k ∨ x ∈ keys d := by
+  induction d with
+  | nil => simp [set, keys] at h; exact .inl h
+  | cons p rest ih =>
+    obtain ⟨a, b⟩ := p
+    simp only [set] at h
+    split at h
+    · rename_i hc
+      simp only [keys, List.map_cons, List.mem_cons] at h ⊢
+      rcases h with h | h
+      · exact .inr (.inl h)
+      · exact .inr (.inr h)
+    · simp only [keys, List.map_cons, List.mem_cons] at h ⊢
+      rcases h with h | h
+      · exact .inr (.inl h)
+      · rcases ih h with h1 | h1
+        · exact .inl h1
+        · exact .inr (.inr h1)
+
+theorem keys_nodup_set (d : Dict κ ν) (k : κ) (v : ν) (h : (keys d).Nodup) : (keys (set d k v)).Nodup := by
+  induction d with
+  | nil => simp [set, keys]
+  | cons p rest ih =>
+    obtain ⟨a, b⟩ := p
+    simp only [set]
+    split
+    · exact h
+    · rename_i hne
+      simp only [keys, List.map_cons, List.nodup_cons] at h ⊢
+      refine ⟨?_, ih h.2⟩
+      intro hm
+      rcases mem_keys_of_mem_set hm with h1 | h1
+      · exact hne h1
+      · exact h.1 h1
+
+theorem mem_keys_of_mem_erase {d : Dict κ ν} {k x : κ} (h : x ∈ keys (erase d k)) : x ∈ keys d ∧ x ≠ k := by
+  induction d with
+  | nil => simp [erase, keys] at h
+  | cons p rest ih =>
+    obtain ⟨a, b⟩ := p
+    simp only [erase] at h
+    split at h
+    · rename_i hc
+      have := ih h
+      exact ⟨by simp [keys] at this ⊢; exact .inr this.1, this.2⟩
+    · rename_i hc
+      simp only [keys, List.map_cons, List.mem_cons] at h ⊢
+      rcases h with h | h
+      · exact ⟨.inl h, by rw [h]; exact hc⟩
+      · have := ih h
+        exact ⟨.inr (by simpa [keys] using this.1), this.2⟩
+
+theorem keys_nodup_erase (d : Dict κ ν) (k : κ) (h : (keys d).Nodup) : (keys (erase d k)).Nodup := by
+  induction d with
+  | nil => simp [erase, keys]
+  | cons p rest ih =>
+    obtain ⟨a, b⟩ := p
+    simp only [keys, List.map_cons, List.nodup_cons] at h
+    simp only [erase]
+    split
+    · exact ih h.2
+    · simp only [keys, List.map_cons, List.nodup_cons]
+      refine ⟨?_, ih h.2⟩
+      intro hm
+      have := (mem_keys_of_mem_erase (d := rest) (by simpa [keys] using hm)).1
+      exact h.1 (by simpa [keys] using this)
+
+theorem mem_keys_iff (d : Dict κ ν) (k : κ) : k ∈ keys d ↔ (get? d k).isSome := by
+  induction d with
+  | nil => simp [keys, get?]
+  | cons p rest ih =>
+    obtain ⟨a, b⟩ := p
+    simp only [keys, List.map_cons, List.mem_cons, get?]
+    split
+    · rename_i h; subst h; simp
+    · rename_i h
+      have : ¬ k = a := fun e => h e.symm
+      simp only [this, false_or]
+      exact ih
+
+theorem mem_values_iff (d : Dict κ ν) (h : (keys d).Nodup) (v : ν) :
+    v ∈ values d ↔ ∃ k, get? d k = some v := by
+  induction d with
+  | nil => simp [values, get?]
+  | cons p rest ih =>
+    obtain ⟨a, b⟩ := p
+    simp only [keys, List.map_cons, List.nodup_cons] at h
+    simp only [values, List.map_cons, List.mem_cons]
+    constructor
+    · rintro (hv | hv)
+      · exact ⟨a, by simp [get?, hv]⟩
+      · obtain ⟨k, hk⟩ := (ih h.2).mp (by simpa [values] using hv)
+        refine ⟨k, ?_⟩
+        simp only [get?]
+        split
+        · rename_i e; subst e
+          exfalso; apply h.1
+          have := (mem_keys_iff rest a).mpr (by simp [hk])
+          simpa [keys] using this
+        · exact hk
+    · rintro ⟨k, hk⟩
+      simp only [get?] at hk
+      split at hk
+      · left; simpa using hk.symm
+      · right
+        have := (ih h.2).mpr ⟨k, hk⟩
+        simpa [values] using this
+
+theorem eq_nil_of_forall_get?_none (d : Dict κ ν) (h : ∀ k, get? d k = none) : d = [] := by
+  cases d with
+  | nil => rfl
+  | cons p rest =>
+    obtain ⟨a, b⟩ := p
+    have := h a
+    simp [get?] at this
+
+end Desper.Dict
